@@ -8,6 +8,7 @@
 package vrt
 
 import (
+	"reflect"
 	"bytes"
 	"fmt"
 	"iter"
@@ -40,6 +41,8 @@ type Thread struct {
 	pending *Op
 	kids    int
 	Steps   int
+	seq     int      // index into vector clocks (registration order)
+	vc      []uint32 // happens-before vector clock of this thread
 }
 
 func (t *Thread) Pending() *Op { return t.pending }
@@ -65,6 +68,31 @@ type Sched struct {
 	objOrd   map[any]int
 	PermHook func(site string, n int) []int // map-order decisions outside Point (nil = sorted)
 	MapSites func(site string) bool         // which MapRange sites are choice points under the scheduler
+	// happens-before tracking (vector clocks over the synchronisation the shims see) and the
+	// accesses to shared maps reported by the instrumented code
+	nseq   int
+	clocks map[any][]uint32
+	maps   map[uintptr]*mapState
+	Races  []Race
+	raceK  map[string]bool
+}
+
+// Race is a pair of accesses to the same map, at least one of them a write, that no chain of
+// lock / unlock, wait-group, once, condition-variable, atomic or goroutine-start edges orders.
+type Race struct {
+	Field        string
+	SiteA, SiteB string // "w:" / "r:" + function of the earlier and of the later access
+}
+
+type mapAccess struct {
+	seq   int
+	clock uint32
+	site  string
+}
+
+type mapState struct {
+	write *mapAccess
+	reads map[int]*mapAccess
 }
 
 var cur atomic.Pointer[Sched]
@@ -74,7 +102,8 @@ func Cur() *Sched { return cur.Load() }
 
 // NewSched creates a scheduler whose controller is the calling goroutine.
 func NewSched() *Sched {
-	return &Sched{byGoid: map[uint64]*Thread{}, ctrl: goid(), objOrd: map[any]int{}, unknown: map[string]int{}}
+	return &Sched{byGoid: map[uint64]*Thread{}, ctrl: goid(), objOrd: map[any]int{}, unknown: map[string]int{},
+		clocks: map[any][]uint32{}, maps: map[uintptr]*mapState{}, raceK: map[string]bool{}}
 }
 
 func (s *Sched) Attach() { cur.Store(s) }
@@ -147,9 +176,132 @@ func (s *Sched) register(g uint64, op *Op) *Thread {
 		t.Key = pre + t.Label + "." + strconv.Itoa(s.unknown[t.Label])
 		s.unknown[t.Label]++
 	}
+	t.seq = s.nseq
+	s.nseq++
+	if pt := s.byGoid[parent]; pt != nil {
+		// goroutine start: everything the parent did before the go statement happens before the child
+		t.vc = append([]uint32(nil), pt.vc...)
+	}
+	vcSet(&t.vc, t.seq, 1)
 	s.byGoid[g] = t
 	s.newReg = append(s.newReg, t)
 	return t
+}
+
+// ---------------------------------------------------------------------------
+// happens-before
+
+func vcSet(v *[]uint32, i int, x uint32) {
+	for len(*v) <= i {
+		*v = append(*v, 0)
+	}
+	(*v)[i] = x
+}
+
+func vcJoin(dst *[]uint32, src []uint32) {
+	for len(*dst) < len(src) {
+		*dst = append(*dst, 0)
+	}
+	for i, x := range src {
+		if x > (*dst)[i] {
+			(*dst)[i] = x
+		}
+	}
+}
+
+func (s *Sched) thread() *Thread {
+	g := goid()
+	if g == s.ctrl {
+		return nil
+	}
+	return s.byGoid[g]
+}
+
+// Acquire: what was released on obj before happens before what the calling thread does next.
+func Acquire(obj any) {
+	s := cur.Load()
+	if s == nil {
+		return
+	}
+	s.Mu.Lock()
+	if t := s.thread(); t != nil {
+		vcJoin(&t.vc, s.clocks[obj])
+	}
+	s.Mu.Unlock()
+}
+
+// Release publishes what the calling thread has done so far on obj.
+func Release(obj any) {
+	s := cur.Load()
+	if s == nil {
+		return
+	}
+	s.Mu.Lock()
+	if t := s.thread(); t != nil {
+		c := s.clocks[obj]
+		vcJoin(&c, t.vc)
+		s.clocks[obj] = c
+		t.vc[t.seq]++
+	}
+	s.Mu.Unlock()
+}
+
+// AcqRel is both (atomic operations, treated as sequentially consistent).
+func AcqRel(obj any) {
+	Acquire(obj)
+	Release(obj)
+}
+
+// MapAccess is inserted by the instrumenter before every statement that reads or writes a map held in
+// a struct field. Accesses by the controller (harness queries at quiescence) and by goroutines the
+// scheduler does not manage are not recorded.
+func MapAccess(m any, field, site string, write bool) {
+	s := cur.Load()
+	if s == nil {
+		return
+	}
+	id := reflect.ValueOf(m).Pointer()
+	if id == 0 {
+		return
+	}
+	s.Mu.Lock()
+	defer s.Mu.Unlock()
+	t := s.thread()
+	if t == nil {
+		return
+	}
+	st := s.maps[id]
+	if st == nil {
+		st = &mapState{reads: map[int]*mapAccess{}}
+		s.maps[id] = st
+	}
+	before := func(a *mapAccess) bool { return a.seq == t.seq || (a.seq < len(t.vc) && a.clock <= t.vc[a.seq]) }
+	report := func(a *mapAccess, ak string, bk string) {
+		r := Race{Field: field, SiteA: ak + a.site, SiteB: bk + site}
+		k := r.Field + "|" + r.SiteA + "|" + r.SiteB
+		if !s.raceK[k] {
+			s.raceK[k] = true
+			s.Races = append(s.Races, r)
+		}
+	}
+	me := &mapAccess{seq: t.seq, clock: t.vc[t.seq], site: site}
+	if write {
+		if st.write != nil && !before(st.write) {
+			report(st.write, "w:", "w:")
+		}
+		for _, r := range st.reads {
+			if !before(r) {
+				report(r, "r:", "w:")
+			}
+		}
+		st.write = me
+		st.reads = map[int]*mapAccess{}
+	} else {
+		if st.write != nil && !before(st.write) {
+			report(st.write, "w:", "r:")
+		}
+		st.reads[t.seq] = me
+	}
 }
 
 // Point parks the calling goroutine until the controller grants op.
